@@ -154,6 +154,32 @@ PLAN = {
         explanation="bounded run-time contract monitor only (rt.netmon.feasibility_monitor)",
         technique="run-time contract monitor on the real functions against the phasor definition (bounded stand-in); deductive obligations pending",
     ),
+    "C07": dict(
+        level="other",
+        bounded=[dict(module="rt.algomon", fn="algo_monitor", label="every schedule() call of greedy / round-robin during seeded simulations"),
+                 dict(module="rt.drivers", fn="sim_monitor", label="simulation-level corollaries under the sorted algorithms", schedulers=["sorted", "rr"])],
+        text="BOUNDED so far: at every call of the real schedule() (greedy and round robin, all five sort orders, estimator and uninterrupted charging on "
+             "and off) during seeded simulations the emitted schedule must be feasible for the network, every pilot accepted by its EVSE, at most the "
+             "session's remaining amp-periods, at most max(estimator bound, minimum pilot under uninterrupted charging), 0 for stations without an "
+             "active session, one value for every station; whole simulations emit no infeasible-schedule warning, raise nothing and never deliver "
+             "more than requested.",
+        note="no obligation is proved for C07 yet (numpy / recursion-heavy code); scope: continuous-from-zero and finite-rate EVSEs as the property says",
+        explanation="bounded run-time contract monitors only (rt.algomon.algo_monitor, rt.simcheck C07.*)",
+        technique="run-time contract monitor on the real functions (bounded stand-in); deductive obligations pending",
+    ),
+    "C08": dict(
+        level="other",
+        bounded=[dict(module="rt.algomon", fn="algo_monitor", label="priority allocation of greedy / round-robin / uncontrolled against the specification")],
+        text="BOUNDED so far: for every schedule() call of seeded simulations with distinct priority keys the greedy result is compared station by station "
+             "with the specification - sessions in the chosen priority order (arrival, reverse arrival, estimated departure, laxity, remaining processing "
+             "time with amp-periods computed from each station's voltage), each gets the largest allowable level feasible given the higher-priority grants "
+             "(finite-rate: exact; continuous: the bound if feasible, otherwise feasible and infeasible 0.01 A above); round robin is compared with a "
+             "level-by-level reference that stops a session only when its next level is infeasible at that moment or exceeds its bound; the uncontrolled "
+             "baseline gives exactly the station maximum to active sessions and nothing else.",
+        note="no obligation is proved for C08 yet; feasibility in the specification is the phasor definition with the algorithm-side default tolerances",
+        explanation="bounded run-time contract monitor only (rt.algomon.algo_monitor)",
+        technique="run-time contract monitor on the real functions against an executable specification (bounded stand-in); deductive obligations pending",
+    ),
     "C12": dict(
         level="other",
         bounded=[dict(module="rt.netmon", fn="constraint_monitor", label="add/remove/update/register sequences with algebra-built Currents against the row model")],
